@@ -333,7 +333,7 @@ def main():
     btc.load_dep_decls(prog)
     rep.cov['mir'] = dict(prog.info)
     NP = 5 if tier == 'quick' else 7
-    NT = 5 if tier == 'quick' else 6
+    NT = 5 if tier == 'quick' else 7
     from checks import histlib as HL
     r = C.rng()
     hjobs = HL.history_list(tier, r, 3 if tier == 'quick' else 4, 3 if tier == 'quick' else 8)
